@@ -18,7 +18,7 @@ def trivial(c):
     return c.nums[n] == 1.0
 
 
-def gen_cases(rng, tier):
+def gen(rng, tier):
     out = []
     nrand = 60 if tier == "quick" else 1500
     for ty in ("f64", "f32"):
@@ -113,6 +113,3 @@ def scale(c, rm):
     pos = [x for x in a if x > num.EPS[c.ty]]
     return max([1] + [1 / x for x in pos]) if c.mop != "proj" else 1
 
-
-def gen(rng, tier):
-    return gen_cases(rng, tier)
